@@ -358,12 +358,14 @@ def run(tier, only=None):
                                     for L, full, _ in plan]
     # ---- part B
     if not only or not only.startswith("c20_"):
-        npq, nipq = (6, 5) if tier == "quick" else (8, 7)
+        # measured: every additional operation multiplies the paths by ~8 (8 / 7 operations did not finish in 20 min per job)
+        npq, nipq = (6, 5) if tier == "quick" else (7, 6)
+        bud = 1200 if tier == "quick" else 5000
         jobs = []
         for f in range(3):
-            jobs.append(dict(scenario="scenario_pq", params=dict(nops=npq, first=f), budget_s=1200, max_paths=500000))
+            jobs.append(dict(scenario="scenario_pq", params=dict(nops=npq, first=f), budget_s=bud, max_paths=2000000))
         for f in range(5):
-            jobs.append(dict(scenario="scenario_ipq", params=dict(nops=nipq, first=f), budget_s=1200, max_paths=500000))
+            jobs.append(dict(scenario="scenario_ipq", params=dict(nops=nipq, first=f), budget_s=bud, max_paths=2000000))
         rcb = SP.run(PROP, tier, ev, "props.C20", jobs, native_replay=_native)
         if rcb == C.EXIT_VIOLATION or rc == C.EXIT_OK:
             rc = rcb if rcb != C.EXIT_OK else rc
